@@ -202,12 +202,14 @@ func c31Check(c c31Case, r *ev.Rec) error {
 			if !ok2 {
 				return fmt.Errorf("[%s] %s: the formatted output is rejected by the parser that accepted the source\nsource:\n%s\nformatted:\n%s", preset, k, c.Files[k], out)
 			}
-			if out2 != out && c30DropAllSpace(out2) == c30DropAllSpace(out) && r.Known("second-pass-moves-whitespace", "") {
-				// recorded finding: a second pass changes blank lines / line breaks only
+			if out2 != out && c30DropAllSpace(out2) == c30DropAllSpace(out) && c31TrimmedLines(out2) != c31TrimmedLines(out) && r.Known("second-pass-moves-whitespace", "") {
+				// recorded finding: a second pass moves blank lines / line breaks. A second pass that keeps every line
+				// and only re-indents some has never been seen on the unchanged tree (0 of 8170 occurrences in the
+				// thorough tier) and is not tolerated.
 				knownApplied = true
 				out2 = out
 			}
-			if out2 != out && c31SortedDecls(out2) == c31SortedDecls(out) && r.Known("file-order-needs-two-passes", "") {
+			if out2 != out && c30DropAllSpace(out2) != c30DropAllSpace(out) && c31SortedDecls(out2) == c31SortedDecls(out) && r.Known("file-order-needs-two-passes", "") {
 				// recorded finding: the canonical order of top-level declarations is only reached on a second pass
 				knownApplied = true
 				out2 = out
@@ -313,21 +315,92 @@ func c31Layout(t *rapid.T, toks []string) string {
 	return sb.String()
 }
 
+// c31TrimmedLines: the lines of a text without their leading and trailing blanks (blank lines kept).
+func c31TrimmedLines(s string) string {
+	ls := strings.Split(s, "\n")
+	for i := range ls {
+		ls[i] = strings.TrimSpace(ls[i])
+	}
+	return strings.Join(ls, "\n")
+}
+
+// c31OneLinePerDecl: single spaces between tokens, a line break after every ; { } outside brackets - the way
+// compact options and short literals are written by hand (everything of a declaration on one source line).
+func c31OneLinePerDecl(toks []string) string {
+	var sb strings.Builder
+	depth := 0
+	for i, tx := range toks {
+		sb.WriteString(tx)
+		switch tx {
+		case "(", "[", "<":
+			depth++
+		case ")", "]", ">":
+			depth--
+		}
+		switch {
+		case i == len(toks)-1:
+			sb.WriteString("\n")
+		case depth == 0 && (tx == ";" || tx == "{" || tx == "}") && !c31InLiteral(toks, i):
+			sb.WriteString("\n")
+		default:
+			sb.WriteString(" ")
+		}
+	}
+	return sb.String()
+}
+
+// c31InLiteral: is token i inside a { } that is a value (opened after '=' or ':' or inside brackets)?
+func c31InLiteral(toks []string, i int) bool {
+	var stack []bool
+	lit := 0
+	for k := 0; k <= i; k++ {
+		switch toks[k] {
+		case "(", "[", "<":
+			stack = append(stack, true)
+			lit++
+		case "{":
+			l := lit > 0 || k > 0 && (toks[k-1] == "=" || toks[k-1] == ":")
+			stack = append(stack, l)
+			if l {
+				lit++
+			}
+		case ")", "]", ">", "}":
+			if len(stack) > 0 {
+				wasLit := stack[len(stack)-1]
+				stack = stack[:len(stack)-1]
+				if wasLit {
+					if k == i {
+						return true
+					}
+					lit--
+				}
+			}
+		}
+	}
+	return lit > 0
+}
+
 func TestC31_Generated(t *testing.T) {
 	ev.Run(t, ev.Spec[c31Case]{ID: "C31", Name: "Generated", Quick: 400, Thorough: 15000,
-		Rule: "generated valid workspaces of 1-3 files (all element kinds, options incl. custom options and message literals, imports in generated order) printed canonically or with generated whitespace and comments between any two tokens; " + c31Rule,
+		Rule: "generated valid workspaces of 1-3 files (all element kinds, options incl. custom options and message literals, imports in generated order) printed canonically, one declaration per line, or with generated whitespace and comments between any two tokens, half of them with string values respelt as adjacent literals (\"he\" \"llo\"); " + c31Rule,
 		Gen: func(t *rapid.T) c31Case {
 			ws := gen.GenWorkspace(t, gen.Config{MaxFiles: 3, CustomOpts: gen.Pct(t, 50, "custom")})
 			c := c31Case{Files: ws.PrintAll(), Names: ws.Names()}
 			for _, f := range ws.Files {
+				toks := gen.TokTexts(gen.Tokens(f))
+				if gen.Pct(t, 50, "split-strings") {
+					toks = gen.SplitStrings(t, toks, 60)
+				}
 				switch gen.Uniform(t, 10, "layout") {
-				case 0, 1:
+				case 0:
 					// canonical print
+				case 1:
+					c.Files[f.Name] = c31OneLinePerDecl(toks)
 				case 2, 3:
 					st := gen.TriviaStyle{Comments: gen.Pct(t, 70, "comments"), Exotic: gen.Pct(t, 20, "exotic"), MultiByte: gen.Pct(t, 30, "mb")}
-					c.Files[f.Name] = gen.Respell(t, gen.TokTexts(gen.Tokens(f)), st)
+					c.Files[f.Name] = gen.Respell(t, toks, st)
 				default:
-					c.Files[f.Name] = c31Layout(t, gen.TokTexts(gen.Tokens(f)))
+					c.Files[f.Name] = c31Layout(t, toks)
 				}
 			}
 			return c
